@@ -251,7 +251,7 @@ class Model:
             p = subprocess.run(self.cmd, shell=True, cwd=LEAN, input=data, capture_output=True, text=True, timeout=3000)
         else:
             p = subprocess.run([self.bin], input=data, capture_output=True, text=True, timeout=3000)
-        lines = p.stdout.splitlines()
+        lines = p.stdout.split("\n")  # not splitlines(): U+0085 / U+2028 / U+2029 inside a JSON string are not line ends
         outs = []
         for i in range(len(reqs)):
             if i < len(lines):
